@@ -1,7 +1,7 @@
 (* C06: the statements of props/C06.v over whole sessions (Crash.csess). *)
 From GoCar Require Import Bytes Varint Cid Header Frame V2Header Index Scan Store Crash.
 From GoCarProofs Require Import BytesFacts VarintFacts CidFacts ResumeFacts ResumeInv ResumeReject
-     CrashImage CrashScan CrashResume CrashPut CrashDev CrashPartial.
+     CrashImage CrashScan CrashResume CrashPut CrashDev CrashPartial CrashResumePhase.
 
 Lemma put_class_range bs : forall s kk t cl, put_class s bs kk t = Some cl ->
   cl = CBoundary \/ cl = CHead \/ cl = CData.
@@ -32,32 +32,76 @@ Section T.
     destruct (ii_flatten _ _); [apply fin_file_nonempty|apply live_file_nonempty].
   Qed.
 
-  (* the earlier processes of a session: the last one starts in an invariant state whose log
-     replays the file it was given *)
+  Notation live_file := (live_file o nilroots roots).
+  Notation resumed_state := (resumed_state k o nilroots roots).
+
+  (* reopening what a segment end leaves: which file it was and which writes Resume issued *)
+  Lemma reopen_cut_forms c st : Forall stored_ok st -> fits o nilroots roots st ->
+    (cut_file c st = live_file st /\
+     reopen hdrdec k o nilroots roots (cut_file c st) = inl (resumed_state (if w_v1 o then [] else zero_hdr_log) st)) \/
+    (w_v1 o = false /\ exists fi, cut_file c st = fin_file o nilroots roots st fi /\
+     reopen hdrdec k o nilroots roots (cut_file c st) =
+       inl (resumed_state (zero_hdr_log ++ [Trunc (51 + w_dpad o + pos_of nilroots roots st)]) st)).
+  Proof.
+    intros Hc Hfit.
+    assert (Hlive : reopen hdrdec k o nilroots roots (live_file st) = inl (resumed_state (if w_v1 o then [] else zero_hdr_log) st)).
+    { rewrite (reopen_nonempty hdrdec k o nilroots roots) by apply live_file_nonempty.
+      apply (resume_live hdrdec k o nilroots roots Hpar st Hc Hfit). }
+    unfold ResumeInv.cut_file. destruct c; [left; split; [reflexivity|exact Hlive]|].
+    destruct (w_v1 o) eqn:Ev; [left; split; [reflexivity|exact Hlive]|].
+    destruct (ii_flatten (w_codec o) (idx_of nilroots roots st)) as [fi|]; [|left; split; [reflexivity|exact Hlive]].
+    right. split; [reflexivity|]. exists fi. split; [reflexivity|].
+    rewrite (reopen_nonempty hdrdec k o nilroots roots) by apply fin_file_nonempty.
+    apply (resume_fin hdrdec k o nilroots roots Hpar st fi Hc Hfit Ev).
+  Qed.
+
+  (* a block whose Put returned nil is, afterwards, either an identity block that is not stored or
+     present under its key in the stored list *)
+  Definition present (st : list block) (b : block) : Prop :=
+    exists b', In b' st /\ fst b' = fst b.
+
+  (* the earlier processes of a session: the last one starts in the invariant state of all the
+     earlier puts, its log replays the file it was given, and -- if there was an earlier process --
+     it started by resuming in one of the two ways of CrashResumePhase *)
   Lemma run_segs_f_inv segs : forall s st f0 acked f0' start acked',
     Inv s st -> dev_ok f0 (ws_dev s) -> budget st (concat (map fst segs)) ->
     run_segs_f hdrdec nilroots f0 s acked segs = Some (f0', start, acked') ->
-    exists st', Inv start st' /\ dev_ok f0' (ws_dev start) /\
-      blen (enc_sections st') <= blen (enc_sections st) + blen (enc_sections (concat (map fst segs))).
+    let st' := abs_puts st (concat (map fst segs)) in
+    Inv start st' /\ dev_ok f0' (ws_dev start) /\
+    (segs <> [] ->
+       (w_v1 o = true -> loglen start = 0%nat) /\
+       (w_v1 o = false -> resumed_start k o nilroots roots f0' start st')).
   Proof.
-    induction segs as [|[bs c] r IH]; intros s st f0 acked f0' start acked' HI Hdev Hb H.
-    - cbn [run_segs_f] in H. injection H as <- <- <-. exists st. split; [exact HI|]. split; [exact Hdev|].
-      cbn [map concat]. change (enc_sections []) with (@nil byte). rewrite blen_nil. lia.
+    induction segs as [|[bs c] r IH]; intros s st f0 acked f0' start acked' HI Hdev Hb H; cbv zeta.
+    - cbn [run_segs_f] in H. injection H as <- <- <-. cbn [map concat]. unfold ResumeInv.abs_puts. cbn [fold_left].
+      split; [exact HI|]. split; [exact Hdev|]. intros X. congruence.
     - cbn [run_segs_f map concat fst] in *. unfold ResumeInv.budget in Hb.
       rewrite enc_sections_app, blen_app in Hb.
       assert (HI1 : Inv (run_puts s bs) (abs_puts st bs)) by (apply (run_puts_inv hdrdec k o nilroots roots Hpar); [exact HI|lia]).
       rewrite (end_seg_file k o nilroots roots _ _ c HI1) in H.
       rewrite (inv_kind _ _ _ _ _ _ HI), (inv_opts _ _ _ _ _ _ HI), (inv_roots _ _ _ _ _ _ HI) in H.
       pose proof (abs_puts_size o nilroots roots bs st) as Hsz.
-      destruct (reopen_after_cut hdrdec k o nilroots roots Hpar c (abs_puts st bs) (inv_cids _ _ _ _ _ _ HI1) (inv_fits _ _ _ _ _ _ HI1))
-        as (log & Hre).
+      pose proof (inv_cids _ _ _ _ _ _ HI1) as Hc1. pose proof (inv_fits _ _ _ _ _ _ HI1) as Hf1.
+      rewrite abs_puts_app.
+      assert (Hstep : exists log, reopen hdrdec k o nilroots roots (cut_file c (abs_puts st bs)) = inl (resumed_state log (abs_puts st bs)) /\
+                (w_v1 o = true -> log = []) /\
+                (w_v1 o = false -> resumed_start k o nilroots roots (cut_file c (abs_puts st bs)) (resumed_state log (abs_puts st bs)) (abs_puts st bs))).
+      { destruct (reopen_cut_forms c (abs_puts st bs) Hc1 Hf1) as [[Hcf Hre]|(Ev & fi & Hcf & Hre)].
+        - eexists. split; [exact Hre|]. split; [intros ->; reflexivity|].
+          intros Ev. rewrite Ev. apply rs_live; [exact Hcf|reflexivity].
+        - eexists. split; [exact Hre|]. split; [congruence|].
+          intros _. apply (rs_fin _ _ _ _ _ _ _ fi); [exact Hcf|reflexivity]. }
+      destruct Hstep as (log & Hre & Hlv1 & Hlv2).
       rewrite Hre in H.
-      destruct (IH _ (abs_puts st bs) _ _ _ _ _
-                   (resumed_state_inv k o nilroots roots log _ (inv_cids _ _ _ _ _ _ HI1) (inv_fits _ _ _ _ _ _ HI1))
-                   (resume_dev_ok hdrdec k true o roots _ [] _
-                      (eq_trans (eq_sym (reopen_nonempty hdrdec k o nilroots roots _ (cut_file_nonempty c _))) Hre))
-                   ltac:(unfold ResumeInv.budget; lia) H) as (st' & HI' & Hdev' & Hsz').
-      exists st'. split; [exact HI'|]. split; [exact Hdev'|]. rewrite enc_sections_app, blen_app. lia.
+      assert (HIr : Inv (resumed_state log (abs_puts st bs)) (abs_puts st bs)) by (apply resumed_state_inv; assumption).
+      assert (Hdr : dev_ok (cut_file c (abs_puts st bs)) (ws_dev (resumed_state log (abs_puts st bs)))).
+      { apply (resume_dev_ok hdrdec k true o roots _ []).
+        rewrite <- (reopen_nonempty hdrdec k o nilroots roots _ (cut_file_nonempty c _)). exact Hre. }
+      destruct r as [|sg r'].
+      + cbn [run_segs_f] in H. injection H as <- <- <-. cbn [map concat]. unfold ResumeInv.abs_puts at 1. cbn [fold_left].
+        split; [exact HIr|]. split; [exact Hdr|]. intros _. split; [intros Ev; rewrite (Hlv1 Ev); reflexivity|exact Hlv2].
+      + destruct (IH _ (abs_puts st bs) _ _ _ _ _ HIr Hdr ltac:(unfold ResumeInv.budget; lia) H) as (HI' & Hdev' & Hform).
+        split; [exact HI'|]. split; [exact Hdev'|]. intros _. apply Hform. discriminate.
   Qed.
 
   Variable x : csess.
@@ -71,10 +115,14 @@ Section T.
 
   Lemma cs_start_inv f0 start acked_pre :
     cs_start hdrdec x = Some (f0, start, acked_pre) ->
-    exists st0, Inv start st0 /\ dev_ok f0 (ws_dev start) /\ budget st0 (cs_puts x) /\
-      (cs_pre x = [] -> f0 = [] /\ start = open_state /\ st0 = []).
+    let st0 := abs_puts [] (concat (map fst (cs_pre x))) in
+    Inv start st0 /\ dev_ok f0 (ws_dev start) /\ budget st0 (cs_puts x) /\
+    (cs_pre x = [] -> f0 = [] /\ start = open_state) /\
+    (cs_pre x <> [] ->
+       (w_v1 o = true -> loglen start = 0%nat) /\
+       (w_v1 o = false -> resumed_start k o nilroots roots f0 start st0)).
   Proof.
-    unfold cs_start. rewrite Hxk, Hxo, Hxn, Hxr.
+    unfold cs_start. rewrite Hxk, Hxo, Hxn, Hxr. cbv zeta.
     unfold ResumeInv.budget in Hbud. change (enc_sections []) with (@nil byte) in Hbud. rewrite blen_nil in Hbud.
     rewrite enc_sections_app, blen_app in Hbud.
     assert (Hfit0 : fits o nilroots roots []).
@@ -84,15 +132,13 @@ Section T.
     assert (Hdev0 : dev_ok [] (ws_dev open_state))
       by (apply (open_new_dev_ok k o nilroots roots [] _ (open_new_eq k o nilroots roots Hkind Hfit0))).
     intros H.
-    destruct (run_segs_f_inv (cs_pre x) open_state [] [] [] f0 start acked_pre HI0 Hdev0) as (st0 & HI & Hdev & Hsz);
+    destruct (run_segs_f_inv (cs_pre x) open_state [] [] [] f0 start acked_pre HI0 Hdev0) as (HI & Hdev & Hform);
       [unfold ResumeInv.budget; change (enc_sections []) with (@nil byte); rewrite blen_nil; unfold block in *; lia|exact H|].
+    pose proof (abs_puts_size o nilroots roots (concat (map fst (cs_pre x))) []) as Hsz.
     change (enc_sections []) with (@nil byte) in Hsz. rewrite blen_nil in Hsz.
-    destruct (cs_pre x) as [|sg r] eqn:Epre.
-    - cbn [run_segs_f] in H. injection H as <- <- <-. exists []. split; [exact HI0|]. split; [exact Hdev0|].
-      split; [unfold ResumeInv.budget; change (enc_sections []) with (@nil byte); rewrite blen_nil;
-              cbn [map concat app] in Hbud; change (enc_sections []) with (@nil byte) in Hbud; rewrite blen_nil in Hbud; unfold block in *; lia|].
-      intros _. repeat split.
-    - exists st0. split; [exact HI|]. split; [exact Hdev|]. split; [unfold ResumeInv.budget; unfold block in *; lia|]. discriminate.
+    split; [exact HI|]. split; [exact Hdev|]. split; [unfold ResumeInv.budget; unfold block in *; lia|].
+    split; [|exact Hform].
+    intros Epre. rewrite Epre in H. cbn [run_segs_f] in H. injection H as <- <- _. split; reflexivity.
   Qed.
 
   (* the log of the crashing process *)
@@ -118,21 +164,36 @@ Section T.
     crash_guard x start kk t = true ->
     let img := image f0 (cs_writes x start) kk t in
     refused_untouched hdrdec k o nilroots roots img \/
-    resumed_as_after hdrdec k o nilroots roots start (cs_puts x) (cs_done x start kk) img.
+    resumed_exactly hdrdec k o nilroots roots (abs_puts [] (concat (map fst (cs_pre x)))) (cs_puts x) (cs_done x start kk) img.
   Proof.
     intros Hst Hg. cbv zeta.
-    destruct (cs_start_inv f0 start acked_pre Hst) as (st0 & HI & Hdev & Hb & Hfresh).
+    destruct (cs_start_inv f0 start acked_pre Hst) as (HI & Hdev & Hb & Hfresh & Hres).
+    set (st0 := abs_puts [] (concat (map fst (cs_pre x)))) in *.
     destruct (cs_writes_shape start st0 HI Hb) as (F & HW & Hl1 & Hl2).
     unfold crash_guard, crash_class in Hg. unfold cs_done.
     destruct (loglen (cs_end x start) <=? kk)%nat eqn:E1; [discriminate|].
     destruct (kk <? loglen start)%nat eqn:E2.
-    - (* inside the start writes: only a fresh open is covered *)
-      destruct (cs_pre x) eqn:Epre; [|discriminate].
-      destruct (Hfresh eq_refl) as (-> & -> & ->).
-      rewrite HW, (open_writes_eq k o nilroots roots).
-      rewrite loglen_writes, (open_writes_eq k o nilroots roots) in E2.
-      apply (open_phase_crash hdrdec k o nilroots roots Hpar (cs_puts x) kk t _ Hkind Hb).
-      apply Nat.ltb_lt. exact E2.
+    - (* inside the start writes *)
+      destruct (cs_pre x) as [|sg pre'] eqn:Epre.
+      + (* a fresh open *)
+        destruct (Hfresh eq_refl) as (-> & ->).
+        assert (Est : st0 = []) by (unfold st0; reflexivity). rewrite Est in *.
+        rewrite HW, (open_writes_eq k o nilroots roots).
+        rewrite loglen_writes, (open_writes_eq k o nilroots roots) in E2.
+        apply (open_phase_crash hdrdec k o nilroots roots Hpar (cs_puts x) kk t _ Hkind Hb).
+        apply Nat.ltb_lt. exact E2.
+      + (* the writes Resume itself issued *)
+        apply Nat.ltb_lt in E2.
+        destruct (Hres ltac:(discriminate)) as (Hr1 & Hr2).
+        destruct (w_v1 o) eqn:Ev; [rewrite (Hr1 eq_refl) in E2; lia|].
+        rewrite HW.
+        destruct (resume_phase_images hdrdec k o nilroots roots Hpar Ev f0 start st0 kk t (sess_writes o nilroots roots st0 (cs_puts x) ++ F) (Hr2 eq_refl)
+                    (inv_cids _ _ _ _ _ _ HI) (inv_fits _ _ _ _ _ _ HI) E2) as (Hne & [(log & Hr)|Hr]).
+        * right. exists log, 0%nat. split; [unfold block; lia|].
+          rewrite (reopen_nonempty hdrdec k o nilroots roots _ Hne). cbn [firstn].
+          unfold ResumeInv.abs_puts at 1. cbn [fold_left]. exact Hr.
+        * left. exists EOther. eexists.
+          split; [rewrite (reopen_nonempty hdrdec k o nilroots roots _ Hne); exact Hr|reflexivity].
     - apply Nat.ltb_ge in E2. apply Nat.leb_gt in E1.
       pose proof (put_phase_crash hdrdec k o nilroots roots Hpar f0 start st0 (cs_puts x) (cs_writes x start)
                     (kk - loglen start) t HI Hdev Hb (ex_intro _ F HW)) as Hpp.
@@ -151,11 +212,12 @@ Section T.
   Theorem complete_thm f0 start acked_pre kk t :
     cs_start hdrdec x = Some (f0, start, acked_pre) ->
     (loglen (cs_end x start) <= kk)%nat ->
-    resumed_as_after hdrdec k o nilroots roots start (cs_puts x) (length (cs_puts x))
-                     (image f0 (cs_writes x start) kk t).
+    resumed_exactly hdrdec k o nilroots roots (abs_puts [] (concat (map fst (cs_pre x)))) (cs_puts x) (length (cs_puts x))
+                    (image f0 (cs_writes x start) kk t).
   Proof.
     intros Hst Hk.
-    destruct (cs_start_inv f0 start acked_pre Hst) as (st0 & HI & Hdev & Hb & _).
+    destruct (cs_start_inv f0 start acked_pre Hst) as (HI & Hdev & Hb & _).
+    set (st0 := abs_puts [] (concat (map fst (cs_pre x)))) in *.
     rewrite image_all by (unfold cs_writes; rewrite <- loglen_writes; exact Hk).
     assert (Hrep : replay f0 (cs_writes x start) = ws_file (cs_end x start)).
     { unfold cs_writes, cs_end.
@@ -172,8 +234,7 @@ Section T.
     destruct Hfile as (c & ->).
     destruct (reopen_after_cut hdrdec k o nilroots roots Hpar c _ (inv_cids _ _ _ _ _ _ HIp) (inv_fits _ _ _ _ _ _ HIp))
       as (log & Hre).
-    apply (resumed_outcome hdrdec k o nilroots roots Hpar start st0 (cs_puts x) _ (length (cs_puts x)) _ log HI Hb);
-      [unfold block; lia|rewrite firstn_all; exact Hre].
+    exists log, (length (cs_puts x)). split; [unfold block; lia|rewrite firstn_all; exact Hre].
   Qed.
 End T.
 
@@ -205,8 +266,11 @@ Proof.
   assert (Hpar : params_ok hdrdec o (cs_nil x) (cs_roots x)) by (constructor; assumption).
   assert (Hb : budget o (cs_nil x) (cs_roots x) [] (concat (map fst (cs_pre x)) ++ cs_puts x)).
   { unfold budget. change (enc_sections []) with (@nil byte). rewrite blen_nil. unfold hsz, ResumeInv.hdr. fold hdr. lia. }
-  exact (partial_thm hdrdec (cs_kind x) o (cs_nil x) (cs_roots x) Hpar H6 x eq_refl eq_refl eq_refl eq_refl Hb
-                     f0 start acked_pre k t Hst Hg).
+  destruct (cs_start_inv hdrdec (cs_kind x) o (cs_nil x) (cs_roots x) Hpar H6 x eq_refl eq_refl eq_refl eq_refl Hb
+              f0 start acked_pre Hst) as (HI & _ & Hb0 & _).
+  destruct (partial_thm hdrdec (cs_kind x) o (cs_nil x) (cs_roots x) Hpar H6 x eq_refl eq_refl eq_refl eq_refl Hb
+                        f0 start acked_pre k t Hst Hg) as [Hl|Hr]; [left; exact Hl|right].
+  exact (resumed_exactly_weaken hdrdec (cs_kind x) o (cs_nil x) (cs_roots x) Hpar start _ _ _ _ HI Hb0 Hr).
 Qed.
 
 Theorem C06_header_complete_thm :
@@ -234,6 +298,9 @@ Proof.
   assert (Hpar : params_ok hdrdec o (cs_nil x) (cs_roots x)) by (constructor; assumption).
   assert (Hb : budget o (cs_nil x) (cs_roots x) [] (concat (map fst (cs_pre x)) ++ cs_puts x)).
   { unfold budget. change (enc_sections []) with (@nil byte). rewrite blen_nil. unfold hsz, ResumeInv.hdr. fold hdr. lia. }
-  exact (complete_thm hdrdec (cs_kind x) o (cs_nil x) (cs_roots x) Hpar H6 x eq_refl eq_refl eq_refl eq_refl Hb
-                      f0 start acked_pre k t Hst Hk).
+  destruct (cs_start_inv hdrdec (cs_kind x) o (cs_nil x) (cs_roots x) Hpar H6 x eq_refl eq_refl eq_refl eq_refl Hb
+              f0 start acked_pre Hst) as (HI & _ & Hb0 & _).
+  exact (resumed_exactly_weaken hdrdec (cs_kind x) o (cs_nil x) (cs_roots x) Hpar start _ _ _ _ HI Hb0
+           (complete_thm hdrdec (cs_kind x) o (cs_nil x) (cs_roots x) Hpar H6 x eq_refl eq_refl eq_refl eq_refl Hb
+                         f0 start acked_pre k t Hst Hk)).
 Qed.
